@@ -337,6 +337,10 @@ pub fn run(ctx: &Ctx) -> i32 {
         .map(|l| Letter::many(l.lines.into_iter().map(|ln| match ln.values() { Some(v) => { let nv: Vec<V> = v.clone(); ln.with_values(nv) } None => ln }).collect()))
         .collect();
     explore(ctx, &format!("decimal values (third decimals written in the file), depth<={dq}"), DecimalWide { inner: Wide { alphabet: dec, bases: alpha::bases(false), max_add: dq, repeat: false } }, C18 { cli: false }, shared.clone());
+    {
+        let n = if ctx.quick() { 12 } else { 16 };
+        explore(ctx, &format!("COMBO: complete 12-step buildings, {n} subsystems absent/present"), Layered { slots: alpha::combo_slots(n), bases: alpha::bases(false) }, C18 { cli: false }, shared.clone());
+    }
     explore(ctx, "shipped files + <=1 line (in-process + CLI --oc/--of round trip)", Wide { alphabet: alpha::seeded_letters(), bases: alpha::shipped_bases(), max_add: if ctx.quick() { 0 } else { 1 }, repeat: false }, C18 { cli: true }, shared.clone());
     let mut small = extra_letters();
     small.push(Letter::one(u(Some(0), "CAL", "GASNATURAL", &k(&[3, 1]))));
